@@ -246,6 +246,67 @@ func registerIntrinsics(e *Engine) {
 	in[v("StrEq")] = func(e *Engine, a []Value, c *callCtx) Value {
 		return scalarOfTerm(e.strEq(a[0].str(), a[1].str()))
 	}
+	in[v("BlobPut")] = func(e *Engine, a []Value, c *callCtx) Value {
+		ifc, _ := a[0].O.(*Iface)
+		if ifc == nil {
+			e.unsupported("BlobPut(nil)")
+		}
+		t := ifc.t
+		val := ifc.v
+		if pt, ok := t.Underlying().(*types.Pointer); ok {
+			p, isPtr := val.O.(Ptr)
+			if !isPtr {
+				e.unsupported("BlobPut(nil pointer)")
+			}
+			t = pt.Elem()
+			val = e.load(p)
+		}
+		id := len(e.blobs)
+		e.blobs = append(e.blobs, blobEntry{t, e.deepCopy(val, t)})
+		e.trail = append(e.trail, trailEntry{fn: func() { e.blobs = e.blobs[:id] }})
+		tok := []byte{0, 'V', 'B', 'L', byte(id >> 16), byte(id >> 8), byte(id)}
+		arr := e.newArray(types.Typ[types.Uint8], len(tok))
+		for i, b := range tok {
+			arr.flat[i] = intV(uint64(b))
+		}
+		return Value{O: &Slice{arr: arr, len: len(tok), cap: len(tok)}}
+	}
+	in[v("BlobGet")] = func(e *Engine, a []Value, c *callCtx) Value {
+		s := a[0].slice()
+		if s.len != 7 {
+			return boolV(false)
+		}
+		var tok [7]byte
+		for i := 0; i < 7; i++ {
+			b := s.arr.flat[s.off+i]
+			if b.T != nil {
+				return boolV(false)
+			}
+			tok[i] = byte(b.N)
+		}
+		if tok[0] != 0 || tok[1] != 'V' || tok[2] != 'B' || tok[3] != 'L' {
+			return boolV(false)
+		}
+		id := int(tok[4])<<16 | int(tok[5])<<8 | int(tok[6])
+		if id >= len(e.blobs) {
+			return boolV(false)
+		}
+		ent := e.blobs[id]
+		ifc, _ := a[1].O.(*Iface)
+		if ifc == nil {
+			return boolV(false)
+		}
+		pt, ok := ifc.t.Underlying().(*types.Pointer)
+		if !ok || !types.Identical(pt.Elem(), ent.t) {
+			return boolV(false)
+		}
+		p, isPtr := ifc.v.O.(Ptr)
+		if !isPtr {
+			return boolV(false)
+		}
+		e.store(p, e.deepCopy(ent.v, ent.t))
+		return boolV(true)
+	}
 	in[v("Yield")] = func(e *Engine, a []Value, c *callCtx) Value { return Value{} }
 	in[v("Logf")] = func(e *Engine, a []Value, c *callCtx) Value { return Value{} }
 
@@ -487,6 +548,18 @@ func registerIntrinsics(e *Engine) {
 	in["math/rand.Int63"] = func(e *Engine, a []Value, c *callCtx) Value { return intV(4) }
 	in["math/rand.NewSource"] = nil
 	delete(in, "math/rand.NewSource")
+	in["syscall.Getpagesize"] = func(e *Engine, a []Value, c *callCtx) Value { return intV(4096) }
+	in["os.Getpagesize"] = in["syscall.Getpagesize"]
+	in["internal/syscall/unix.fcntl"] = func(e *Engine, a []Value, c *callCtx) Value {
+		return Value{O: &Tuple{e: []Value{intV(0), intV(0)}}}
+	}
+	in["internal/runtime/syscall.Syscall6"] = func(e *Engine, a []Value, c *callCtx) Value {
+		return Value{O: &Tuple{e: []Value{intV(0), intV(0), intV(38)}}} // ENOSYS: no system calls in the model
+	}
+	in["syscall.runtime_entersyscall"] = func(e *Engine, a []Value, c *callCtx) Value { return Value{} }
+	in["syscall.runtime_exitsyscall"] = in["syscall.runtime_entersyscall"]
+	in["os.runtime_beforeExit"] = in["syscall.runtime_entersyscall"]
+	in["os.checkClonePidfd"] = func(e *Engine, a []Value, c *callCtx) Value { return Value{} }
 	in["os.Getenv"] = func(e *Engine, a []Value, c *callCtx) Value { return strV("") }
 	in["os.runtime_args"] = func(e *Engine, a []Value, c *callCtx) Value { return Value{} }
 	in["syscall.runtime_envs"] = func(e *Engine, a []Value, c *callCtx) Value { return Value{} }
@@ -752,4 +825,77 @@ func (e *Engine) hashUF(kind string, in []Value, outBytes int) []Value {
 		out[i] = Value{T: e.tt.Extract(res, hi, hi-7)}
 	}
 	return out
+}
+
+type blobEntry struct {
+	t types.Type
+	v Value
+}
+
+// deepCopy copies a value so that it shares no mutable storage with v.
+func (e *Engine) deepCopy(v Value, t types.Type) Value {
+	switch u := t.Underlying().(type) {
+	case *types.Slice:
+		s, _ := v.O.(*Slice)
+		if s == nil {
+			return Value{}
+		}
+		arr := e.newArray(u.Elem(), s.len)
+		for i := 0; i < s.len; i++ {
+			e.arrSetFresh(arr, i, e.deepCopy(e.arrGet(s.arr, s.off+i), u.Elem()))
+		}
+		return Value{O: &Slice{arr: arr, len: s.len, cap: s.len}}
+	case *types.Map:
+		m, _ := v.O.(*MapObj)
+		if m == nil {
+			return Value{}
+		}
+		nm := e.newMap(u.Key(), u.Elem())
+		nd := &MapData{}
+		for i := range m.d.keys {
+			nd.keys = append(nd.keys, e.deepCopy(m.d.keys[i], u.Key()))
+			nd.vals = append(nd.vals, e.deepCopy(m.d.vals[i], u.Elem()))
+		}
+		e.reindex(nm, nd)
+		nm.d = nd
+		return Value{O: nm}
+	case *types.Pointer:
+		p, ok := v.O.(Ptr)
+		if !ok {
+			return Value{}
+		}
+		if p.idx >= 0 {
+			return v
+		}
+		n := e.newNode(u.Elem())
+		e.storeNode(n, e.deepCopy(e.loadNode(p.n), u.Elem()))
+		return Value{O: Ptr{n, -1}}
+	case *types.Struct:
+		tp, _ := v.O.(*Tuple)
+		if tp == nil {
+			return v
+		}
+		nt := &Tuple{e: make([]Value, len(tp.e))}
+		for i := range tp.e {
+			nt.e[i] = e.deepCopy(tp.e[i], u.Field(i).Type())
+		}
+		return Value{O: nt}
+	case *types.Array:
+		tp, _ := v.O.(*Tuple)
+		if tp == nil {
+			return v
+		}
+		nt := &Tuple{e: make([]Value, len(tp.e))}
+		for i := range tp.e {
+			nt.e[i] = e.deepCopy(tp.e[i], u.Elem())
+		}
+		return Value{O: nt}
+	case *types.Interface:
+		ifc, _ := v.O.(*Iface)
+		if ifc == nil {
+			return v
+		}
+		return Value{O: &Iface{t: ifc.t, v: e.deepCopy(ifc.v, ifc.t)}}
+	}
+	return v
 }
